@@ -439,7 +439,7 @@ def _op_robust(ctx, op, state):
             ctx.violate("draw-dependence", "robust", sig, f"robust potential differs by {sp:.3g} between draws / after a faulted first load of the Coulomb table")
     state["results"][rk] = v
     # the potential function handed out now belongs to the caller: it is re-evaluated at the end of the run
-    state.setdefault("held_pots", []).append((sig, holder["pot"], v.copy()))
+    state.setdefault("held_pots", []).append((sig, holder["pot"], v.copy(), spec, rshift))
     del state["held_pots"][:-3]
     if kind == "core+smooth" and "rho1" in state["results"] and all(t[0] == "s" for t in ctx.spec["dens"]["rho1"]):
         # robust = analytic core + numerical residual: agrees with the plain solver on the smooth part
@@ -473,7 +473,7 @@ def _op_tweak_params(ctx, op, state):
 
 
 def _check_held_potentials(ctx, state, when):
-    for sig, pot, v0 in state.get("held_pots", []):
+    for sig, pot, v0, hspec, hshift in state.get("held_pots", []):
         oc = _outcome(lambda: np.asarray(pot(state["pts"]), dtype=float))
         if oc[0] == "raise":
             ctx.violate("held-potential-raise", "robust", sig, f"a potential function returned earlier raises {oc[1]!r} when evaluated again ({when})")
@@ -482,6 +482,25 @@ def _check_held_potentials(ctx, state, when):
         if d > 1e-12:
             ctx.violate("held-potential-changed", "robust", sig, f"a potential function returned earlier by solve_poisson_robust now gives values differing by {d:.3g} ({when})")
         ctx.probes.hit("held-potential-re-evaluated")
+        # the caller moves its probe buffer IN PLACE and asks again: the answer must be the one for the new positions,
+        # i.e. what a fresh array with the same coordinates gives
+        buf = state["pts"].copy()
+        buf[:, 0] += 0.11  # positions this potential has not seen before, in the caller's own buffer
+        first = _outcome(lambda: np.asarray(pot(buf), dtype=float))
+        buf[:, 2] += 0.37
+        moved = _outcome(lambda: np.asarray(pot(buf), dtype=float))
+        fresh = _outcome(lambda: np.asarray(pot(buf.copy()), dtype=float))
+        if first[0] == moved[0] == fresh[0] == "ok":
+            dm = float(np.max(np.abs(moved[1] - fresh[1]))) / max(1.0, float(np.max(np.abs(fresh[1]))))
+            if dm > 1e-12:
+                ctx.violate("moved-buffer", "robust", sig, f"potential evaluated on a probe buffer that was moved in place differs by {dm:.3g} from the evaluation on a fresh array with the same coordinates")
+            # ... and it must be the potential at the NEW positions (a memo keyed by a reference to the caller's buffer
+            # would make both of the above agree on a stale answer)
+            ex = _potential(hspec, buf, state["center"]) + hshift
+            em = float(np.max(np.abs(moved[1] - ex))) / max(1.0, float(np.max(np.abs(ex))))
+            if not np.isfinite(em) or em > _acc_bound(ctx):
+                ctx.violate("moved-buffer", "robust", sig, f"potential evaluated on a probe buffer that was moved in place is off by {em:.3g} at the new positions")
+            ctx.probes.hit("probe-buffer-moved-in-place")
 
 
 def _op_perturb(ctx, op, state):
